@@ -37,7 +37,7 @@
   The tie of the model to the code is the sampled correspondence of harness/props/c16.py (every prefix of every
   run: #branches, open view, branch lengths; final stat record; the finished tree field by field; statistics).
 -/
-import Ptx.Proofs.TabTreeTotal
+import Ptx.Proofs.TabTreeDistinct
 import Ptx.Gen.All
 namespace Ptx.Props.C16
 open Ptx Ptx.TabTree
@@ -305,6 +305,33 @@ theorem C16_tree_leaf_nodes {L : LogicData} {arg : Argument} {ss : List Step} {b
   · have hil : ¬ i < bk.recs.length := by rw [hinv.len]; exact hi
     rw [List.getElem?_eq_none (by omega), List.getElem?_eq_none (by omega)]
     rfl
+
+/-- `distinct_nodes` is the number of distinct node objects on the branches: the nodes of the structures,
+    each with the position it has on the branches (`tr.placed 0`), form a duplicate-free list with exactly
+    the (position, identity) pairs that occur on the branches (`bk.objIds`, where a node shared by several
+    branches occurs once per branch), and `distinct_nodes` is the length of that list. -/
+theorem C16_tree_distinct {L : LogicData} {arg : Argument} {ss : List Step} {bk : Book} {tr : Tree}
+    (hne : L.addsNonempty = true) (h : Book.Reach L (Book.init (trunkNodes L arg)) ss bk)
+    (ht : Tree.build bk = .ok tr) :
+    (tr.placed 0).Nodup ∧ (∀ x, x ∈ tr.placed 0 ↔ x ∈ bk.objIds) ∧
+      tr.info.distinctNodes = some (tr.placed 0).length := by
+  have hid := C16_ids_reachable hne h
+  have hinv := (C16_inv_reachable h).1
+  have G := globalOK_of_inv hinv hid (C16_anc_reachable hne h)
+  have hd := (build_counts ht).2.2.2.2
+  unfold Tree.build at ht
+  split at ht
+  · cases ht
+  · next t p d hb =>
+    cases ht
+    obtain ⟨hm, hnd⟩ := buildF_placed G _ _ _ _ _ _ _ _ _ _ hb (fun _ h => h) (pf_of_idinv hid) (agree_zero _)
+    exact ⟨hnd, fun x => by rw [hm x, mem_objIds], by rw [hd, placed_length]⟩
+
+-- the example: 7 node occurrences on the two branches, 5 distinct objects (the trunk and the disjunction's
+-- target are shared; the two disjuncts sit at the same position 2 on different branches)
+example : exBook.objIds = [(0, 0), (1, 0), (2, 0), (3, 0), (0, 0), (1, 0), (2, 1)] ∧
+    (Tree.build exBook).toOption.map (fun tr => tr.placed 0) = some [(0, 0), (1, 0), (2, 0), (3, 0), (2, 1)] := by
+  decide +kernel
 
 -- the tree of the example: the trunk structure with two leaves, one closed (at step 2), one open
 example :
